@@ -3,7 +3,8 @@
 (* prescribes.  A key holder makes a sequence of commit / preprocess(k)     *)
 (* calls; every call takes 2k consecutive 32-byte draws (hiding first) and  *)
 (* each nonce is H3(draw || encoded signing share).  The random source may  *)
-(* be constant or repeating (RandChoices small).                            *)
+(* be constant or repeating (RandChoices small).  Batches of more than 4    *)
+(* pairs take a counting source (size sweeps up to the u8 maximum 255).     *)
 EXTENDS Frost, Json
 
 CONSTANTS ShareChoices,   \* signing shares of the key holder
@@ -39,7 +40,8 @@ Call ==
   /\ LET k == sc.calls[pc[2]]
          nn == "non" \o ToString(pc[2])
          cn == "comm" \o ToString(pc[2])
-     IN \E bs \in SeqsOf(RandChoices, 2 * k) :
+     \* (large batches, for the size sweeps: one behaviour, every draw distinguishable)
+     IN \E bs \in (IF k > 4 THEN {[j \in 1..(2 * k) |-> (j * 7) % 256]} ELSE SeqsOf(RandChoices, 2 * k)) :
           /\ IF k = 1 /\ pc[2] % 2 = 1
              THEN ActCommit(<<nn, 1>>, <<cn, 1>>, KPH, bs[1], bs[2])      \* commit() = preprocess(1)
              ELSE ActPreprocess(nn, cn, KPH, bs)
